@@ -414,7 +414,26 @@ def nearly_full_cases():
     return cases
 
 
+def tiny_neighbour_cases():
+    """runs of sounding entries shorter than a 128th (the tuplet 128ths 160, 192, 224 and many-dotted values next to each other),
+    then notes added at the beat of one of them: only that entry changes"""
+    c4, e4, g4 = [["C", 4]], [["E", 4]], [["G", 4]]
+    cases = []
+    tiny = [[128, 0, 5, 4], [128, 0, 3, 2], [128, 0, 7, 4], [128, 0, 1, 1], [128, 4, 1, 1], [64, 0, 7, 4]]
+    for meter in ([4, 4], [6, 8], [0, 0], [3, 4]):
+        for v in tiny:
+            for w in tiny:
+                pre = [["place", "str", c4, [4, 0, 1, 1]], ["place", "str", e4, [8, 0, 1, 1]]]
+                run = [["place", "note", c4, v], ["place", "str", e4, w], ["place", "liststr", g4, v], ["place", "str", c4, w], ["place", "str", e4, [64, 0, 1, 1]]]
+                for idx in (2, 3, 4, 5):
+                    cases.append({"meter": meter, "ops": pre + run + [["at", idx, [["B", 5]], 0], ["at", idx + 1, [["A", 5]], 0]]})
+    return cases
+
+
 def sub_near_boundary(ctx, shard, n):
+    tn = tiny_neighbour_cases()
+    ctx.exhaustive("place_notes_at among neighbouring entries shorter than a 128th", "4 meters x 36 value pairs x 4 positions", len(tn))
+    ctx.enumerate("history", check_history, tn, size_key=lambda c: len(c["ops"]))
     nf = nearly_full_cases()
     ctx.exhaustive("nearly full bars (1/1344 free), remove-last, exact refill", "8 meters x 3 continuations", len(nf))
     ctx.enumerate("history", check_history, nf, size_key=lambda c: len(c["ops"]))
